@@ -239,9 +239,12 @@ def argList : Nat → Toks → Res (List Expr × Toks)
     | _ => do
       let (e, ts') ← expression n 0 ts
       match have? .COMMA ts' with
-      | (true, ts'') => do
-        let (es, ts3) ← argList n ts''
-        .ok (e :: es, ts3)
+      | (true, ts'') =>
+        match peekTyp ts'' with
+        | some .RPAREN => .reject "Expected an argument after ',', found RPAREN"
+        | _ => do
+          let (es, ts3) ← argList n ts''
+          .ok (e :: es, ts3)
       | (false, ts'') => do
         let (_, ts3) ← mustbe .RPAREN ts''
         .ok ([e], ts3)
